@@ -33,6 +33,9 @@ type c20Workload struct {
 	IDSeed  uint64      `json:"id_seed"`
 	Scripts [][]c20Step `json:"scripts"`
 	Remote  []sim.Call  `json:"remote"` // calls made beforehand on a second replica; delivered during the run
+	// HandleFromTx (documents): the child handle of the array that the goroutines share was obtained
+	// inside an earlier, finished transaction (it carries that transaction's context)
+	HandleFromTx bool `json:"handle_from_tx,omitempty"`
 }
 
 func c20GenCall(rt *rapid.T, kind sim.Kind, label string, g int, n *int) sim.Call {
@@ -100,6 +103,9 @@ func c20Gen(rt *rapid.T, kind sim.Kind) c20Workload {
 		}
 		w.Scripts = append(w.Scripts, script)
 	}
+	if kind == sim.Document {
+		w.HandleFromTx = rapid.Bool().Draw(rt, "handle_from_tx")
+	}
 	rn := rapid.IntRange(0, 15).Draw(rt, "remote")
 	cnt := 0
 	for j := 0; j < rn; j++ {
@@ -142,7 +148,23 @@ func c20Run(wl c20Workload) (*sim.World, *c20Outcome) {
 	// timestamp under the lock). TestC20KnownS26 re-demonstrates the finding in a subprocess.
 	var arrHandle orda.Document
 	if wl.Kind == sim.Document {
-		arrHandle, _ = a.(orda.Document).GetFromObject("arr")
+		if wl.HandleFromTx {
+			// a handle fetched inside a transaction keeps working after the transaction has ended; it must
+			// not be taken for the owner of whatever transaction runs later
+			if err := a.(orda.Document).Transaction("setup", func(d orda.DocumentInTx) error {
+				h, e := d.GetFromObject("arr")
+				if e != nil {
+					return e
+				}
+				arrHandle = h
+				return nil
+			}); err == nil {
+				out.committed++
+			}
+		}
+		if arrHandle == nil {
+			arrHandle, _ = a.(orda.Document).GetFromObject("arr")
+		}
 	}
 	exec := func(view interface{}, c sim.Call, inTx bool) sim.Result {
 		if wl.Kind == sim.Document && len(c.Path) > 0 && !inTx {
@@ -375,6 +397,9 @@ func testC20(t *testing.T, kind sim.Kind) {
 			labels = append(labels, "call-during-foreign-transaction")
 		}
 		b, _ := json.Marshal(wl)
+		if wl.HandleFromTx {
+			labels = append(labels, "shared-handle-obtained-inside-an-earlier-transaction")
+		}
 		col.Case(out.overlap == 1 && out.txOverlap == 1, string(b), append(labels, "kind="+string(kind), fmt.Sprintf("goroutines=%d", len(wl.Scripts))), func() interface{} {
 			return map[string]interface{}{"kind": kind, "goroutines": len(wl.Scripts), "script_lengths": func() []int {
 				var l []int
